@@ -77,6 +77,25 @@ pub fn exec(c: &[i64]) -> Vec<i64> {
             for _ in 0..2 { buses[i].inject(&raw_frame(id, 8, &data)); std::thread::sleep(Duration::from_millis(3)); }
         } } }
     }
+    // optional 7th field: traffic from the ends of the address space before the request - a node without an address (0xFE) asking
+    // who is there and announcing that it cannot claim one, frames from 0xFF and 0x00, a broadcast announce: none of it concerns
+    // the teardown
+    let foreign = c.get(6).copied().unwrap_or(0);
+    if foreign != 0 && !congested {
+        for (i, _) in nets.iter().enumerate() {
+            for src in [0xfeu32, 0xff, 0x00] {
+                let req = crate::units::id_of(6, 59904, 0xff, src) | 0x8000_0000;
+                buses[i].inject(&raw_frame(req, 3, &[0x00, 0xee, 0x00]));
+                let claim = crate::units::id_of(6, 60928, 0xff, src) | 0x8000_0000;
+                buses[i].inject(&raw_frame(claim, 8, &[1, 2, 3, 4, 5, 6, 7, 8]));
+                let bam = crate::units::id_of(7, 60416, 0xff, src) | 0x8000_0000;
+                buses[i].inject(&raw_frame(bam, 8, &[32, 9, 0, 2, 0xff, 0xeb, 0xfe, 0]));
+                let pdu2 = crate::units::id_of(6, 65226, 0, src) | 0x8000_0000;
+                buses[i].inject(&raw_frame(pdu2, 8, &[0; 8]));
+                std::thread::sleep(Duration::from_millis(2));
+            }
+        }
+    }
     std::thread::sleep(Duration::from_millis(delay));
     if burst > 0 { if let Some(s) = clients.first_mut() {
         for j in 0..burst { let mut f = crate::session::header(0x20, 3); let v = (j as u16).to_be_bytes(); f.extend([5, v[0], v[1]]); let _ = s.write_all(&f); }
@@ -150,6 +169,7 @@ pub fn gen(o: &Opts, sink: &mut dyn FnMut(Vec<i64>, String)) {
         let burst = if nclients > 0 && j % 3 == 0 { *rng.pick(&[10i64, 40, 200]) } else { 0 };
         let sig = if j % 5 == 4 { 2 } else { 15 };
         let hst = [0i64, 1, 2, 1, 3][(j % 5) as usize];
-        sink(vec![cfg, delay, nclients, burst, sig, hst], String::new());
+        let foreign = (j % 3 == 1) as i64;
+        sink(vec![cfg, delay, nclients, burst, sig, hst, foreign], String::new());
     }
 }
